@@ -17,34 +17,52 @@ GS = SR.GS
 
 def first_wins_guard(M):
     """structural facts that make 'an earlier candidate with the same letter permutation shadows a later one' true:
-    identity first, table order kept, ranking appends in iteration order, element 0 is taken."""
+    identity first, table order kept, ranking appends in iteration order, element 0 is taken. Locals are identified by role:
+    NORM = the list extended with the table entry, IDENT = the dict literal carrying the key "identity", REPS = the list the candidate
+    dicts ({"transformation", "permutations"}) are appended to, BEST = the local recorded as self._best_transform."""
     fn = M.func(GS)
-    src = ast.unparse(fn)
     facts = {}
     body = [s for s in ast.walk(fn)]
+    ext = [c for c in body if isinstance(c, ast.Call) and isinstance(c.func, ast.Attribute) and c.func.attr in ("extend", "__iadd__") and isinstance(c.func.value, ast.Name)
+           and c.args and "CHIRALITY_PRESERVING_EUCLIDEAN_NORMALIZERS" in norm(c.args[0])]
+    NORM = ext[0].func.value.id if ext else None
+    if NORM is None:
+        # the table entry may be bound directly: normalizers = TABLE.get(...)
+        direct = [s2 for s2 in body if isinstance(s2, ast.Assign) and isinstance(s2.targets[0], ast.Name) and "CHIRALITY_PRESERVING_EUCLIDEAN_NORMALIZERS" in norm(s2.value)]
+        NORM = direct[0].targets[0].id if direct else None
+    ident = [norm(s2.targets[0]) for s2 in body if isinstance(s2, ast.Assign) and isinstance(s2.value, ast.Dict)
+             and any(isinstance(k, ast.Constant) and k.value == "identity" for k in s2.value.keys)]
+    IDENT = ident[0] if ident else None
+    cand = [norm(s2.targets[0]) for s2 in body if isinstance(s2, ast.Assign) and isinstance(s2.value, ast.Dict)
+            and {k.value for k in s2.value.keys if isinstance(k, ast.Constant)} >= {"transformation", "permutations"}
+            and not any(isinstance(k, ast.Constant) and k.value == "identity" for k in s2.value.keys)]
+    reps_app = [c for c in body if isinstance(c, ast.Call) and isinstance(c.func, ast.Attribute) and c.func.attr == "append" and c.args and norm(c.args[0]) in cand]
+    REPS = norm(reps_app[0].func.value) if reps_app else None
+    best = [s2 for s2 in body if isinstance(s2, ast.Assign) and norm(s2.targets[0]) == "self._best_transform" and isinstance(s2.value, ast.Name) and s2.value.id != IDENT]
+    BEST = best[0].value.id if best else None
     app = [c for c in body if isinstance(c, ast.Call) and isinstance(c.func, ast.Attribute) and c.func.attr in ("append", "extend", "insert")
-           and norm(c.func.value) == "normalizers"]
-    order = [c.func.attr + ":" + norm(c.args[0])[:40] for c in app]
-    facts["identity_first"] = bool(app) and app[0].func.attr == "append" and norm(app[0].args[0]) == "identity" and \
+           and NORM is not None and norm(c.func.value) == NORM]
+    app.sort(key=lambda c: (c.lineno, c.col_offset))
+    facts["identity_first"] = bool(app) and app[0].func.attr == "append" and norm(app[0].args[0]) == IDENT and \
         all(c.func.attr != "insert" for c in app)
     facts["table_extended"] = any(c.func.attr == "extend" and "CHIRALITY_PRESERVING_EUCLIDEAN_NORMALIZERS" in norm(c.args[0]) for c in app)
     facts["no_reorder"] = not any(isinstance(c, ast.Call) and ((isinstance(c.func, ast.Name) and c.func.id in ("sorted", "reversed"))
                                                                 or (isinstance(c.func, ast.Attribute) and c.func.attr in ("sort", "reverse", "shuffle")))
-                                  and any(isinstance(x, ast.Name) and x.id in ("normalizers", "representations") for x in ast.walk(c))
+                                  and any(isinstance(x, ast.Name) and x.id in (NORM, REPS) for x in ast.walk(c))
                                   for c in body)
     # every normalizer yields exactly one ranked candidate: the append is unconditional in the construction loop
     facts["every_candidate_ranked"] = False
     for lp in body:
-        if isinstance(lp, ast.For) and norm(lp.iter) == "normalizers":
+        if isinstance(lp, ast.For) and NORM is not None and norm(lp.iter) == NORM:
             apps = [c for c in ast.walk(lp) if isinstance(c, ast.Call) and isinstance(c.func, ast.Attribute) and c.func.attr == "append"
-                    and norm(c.func.value) == "representations"]
+                    and norm(c.func.value) == REPS]
             if apps:
                 top = [st for st in lp.body if any(c is apps[0] for c in ast.walk(st))]
                 skips = [x for x in ast.walk(lp) if isinstance(x, (ast.Continue, ast.Break))]
                 facts["every_candidate_ranked"] = bool(top) and isinstance(top[0], ast.Expr) and not skips
-    picks = [s for s in body if isinstance(s, ast.Assign) and norm(s.targets[0]) == "best_representation"
+    picks = [s for s in body if isinstance(s, ast.Assign) and BEST is not None and norm(s.targets[0]) == BEST
              and isinstance(s.value, ast.Subscript)]
-    facts["takes_first"] = bool(picks) and all(norm(s.value) == "representations[0]" for s in picks)
+    facts["takes_first"] = bool(picks) and all(norm(s.value) == f"{REPS}[0]" for s in picks)
     return facts
 
 
